@@ -1,4 +1,11 @@
-"""Per-property configuration of the checks (modules with contracts, lemmas, bounded stand-ins)."""
+"""Per-property configuration of the checks (modules with contracts, lemmas, bounded stand-ins,
+manifest texts).  `./check <ID>` reads this; tools/gen_manifest.py renders MANIFEST.json from it."""
+
+FS_MODULES = ['contracts.fs_format', 'contracts.fs_load', 'contracts.blobmodel',
+              'contracts.fs_write', 'contracts.fs_open']
+
+TECH = ('contract-based deductive verification: own ast->z3 VC generator (pyvc) over the real source + '
+        'sidecar contracts, ground quantifier instantiation, native replay of counter-models')
 
 PROPS = {
     'C19': {
@@ -11,9 +18,113 @@ PROPS = {
                       '__len__/__iter__/keys/items/values/iteritems/itervalues/update/save+load/'
                       'getstate+setstate; 300 (thorough: 3000) random 12-operation sequences, seed VERIF_SEED'},
         ],
-        'assumptions': [],
-        'explanation': 'fsIndex point operations and bounded min/max queries proved against the '
-                       'sorted-map view for all keys and all index contents; iteration, len and '
-                       'save/load only bounded (labelled)',
+        'text': 'Every point operation of fsIndex (get, [], []=, del, in, has_key, clear) and the bounded '
+                'min/max queries are proved, for all 8-byte keys and all index contents, to agree with a '
+                'sorted dictionary over the abstract view (whole-view postconditions + representation '
+                'invariant); iteration, len and save/load only by a labelled bounded stand-in.',
+        'note': 'Trusted: pyvc and z3; BTrees OOBTree/fsBucket assumed sorted finite maps (C code); bucket '
+                'ownership A-BUCKET-OWN; mathematical ints; struct layout. Bounded part: <=3 keys of a 12-key scope.',
+        'design_ref': 'DESIGN.md section 5 C19',
+    },
+    'C20': {
+        'modules': FS_MODULES,
+        'lemmas': ['contracts.lemmas:lemma_c20_fresh'],
+        'level': 'proof',
+        'bounded': [
+            {'func': 'ZODB.BaseStorage:BaseStorage.new_oid<sessions>',
+             'bound': 'one scripted session on FileStorage (allocate, store, restore ids 0x1fe/0x2ff/0x100ff, '
+                      'abort, reopen, pack) with 300+ allocations; 50 allocations on MappingStorage and DemoStorage'},
+        ],
+        'text': 'new_oid is proved to return old counter + 1 and to advance the counter, reading and writing it '
+                'inside one critical section of the storage lock; store is proved to raise the counter to any '
+                'larger stored oid; read_index is proved to return an oid >= every key of the rebuilt index; '
+                'lemma C20.fresh: under OIDINV (counter >= every present or issued id) the result is fresh. '
+                'MappingStorage/DemoStorage allocation and restore/pack preservation only bounded.',
+        'note': 'Thread schedules are reduced to lock ownership (T3). restore(), pack swap and DemoStorage probing '
+                'are covered only by the bounded session, not proved.',
+        'design_ref': 'DESIGN.md section 5 C20',
+    },
+    'C04': {
+        'modules': FS_MODULES,
+        'lemmas': ['contracts.fs_load:lemma_extremal', 'contracts.lemmas:lemma_header_roundtrip'],
+        'level': 'proof',
+        'bounded': [
+            {'func': 'ZODB.FileStorage.FileStorage:FileStorage<queries-after-histories>',
+             'bound': '2 fixed + 6 (thorough: 40) random histories of <=5 transactions over 5 oids (seed VERIF_SEED); '
+                      'after every commit: load/getTid/loadBefore at every tid boundary/loadSerial/history/'
+                      'iterator/lastTransaction against the model; after abort; after close+reopen with and '
+                      'without index file; tid monotonicity with clock behind the data'},
+        ],
+        'text': 'FileStorage load/loadSerial/loadBefore/getTid/_loadBack_impl are proved, for all oids, tids and '
+                'file contents satisfying the representation invariant, to return exactly the revision the '
+                'prev/back-pointer chains define (lemma: first-below along a strictly decreasing chain = '
+                'greatest tid below, successor = least tid not below); record and transaction header codecs '
+                'proved inverse; store/deleteObject proved to stage the exact record image; tpc_begin proved '
+                'to choose a tid later than every earlier one whatever the clock returns; read_index proved to '
+                'return the committed end and the tid of the last accepted transaction.',
+        'note': 'RI (chains) is assumed by the query contracts; its preservation by finish is argued by lemma over '
+                'the store/vote/finish postconditions only in part; iterator/history/undoLog, MappingStorage and '
+                'DemoStorage queries and the index rebuilt by read_index are covered by the bounded stand-in only.',
+        'design_ref': 'DESIGN.md section 5 C04',
+    },
+    'C01': {
+        'modules': FS_MODULES,
+        'lemmas': ['contracts.lemmas:lemma_c01_crash'],
+        'level': 'proof',
+        'bounded': [
+            {'func': 'ZODB.FileStorage.FileStorage:FileStorage<crash-images>',
+             'bound': '2 (thorough: 3) scripted histories with commits, aborts before/after vote, repeated oid; '
+                      'every prefix of the raw write/truncate sequence and up to 40 torn cuts per write; each '
+                      'image reopened with the real FileStorage'},
+        ],
+        'text': 'Crash-Hoare obligations: after every write/truncate that tpc_vote, _finish and _abort issue to '
+                'the data file, and for every torn prefix (symbolic cut length), the OS image keeps the committed '
+                'prefix and its tail is ignorable (short header / checkpoint flag / overlong length) or - only '
+                'after the one-byte status flip - a complete transaction; _finish_finish proved to flush then '
+                'fsync before position, index and last tid are published; tpc_finish proved not to return with '
+                'unsynced data; read_index proved to stop at the first ignorable boundary, cut the tail (unless '
+                'read-only) and never panic on a well-formed image; lemma C01.crash ties the two.',
+        'note': 'In-order write model (T4): a crash image is a prefix of the write sequence; OS reordering of '
+                'unsynced pages is outside (as in the property). One-byte write atomic.',
+        'design_ref': 'DESIGN.md section 5 C01',
+    },
+    'C05': {
+        'modules': FS_MODULES,
+        'lemmas': ['contracts.lemmas:lemma_c05_noleak'],
+        'level': 'proof',
+        'bounded': [
+            {'func': 'ZODB.FileStorage.FileStorage:FileStorage<aborts-and-faults>',
+             'bound': 'abort after begin/store/vote x payload {3 B, 70 kB}; every raw write of tpc_vote failing '
+                      'after {0,1,17,1000} bytes; wrong-transaction calls; state, file bytes, lock and next '
+                      'transaction checked'},
+        ],
+        'text': 'Exceptional postconditions: tpc_vote with single-fault injection at every primitive write/flush '
+                '(partial write prefix symbolic) leaves the file cut at the committed end, reader buffers '
+                'dropped, locks balanced; store/deleteObject/tpc_vote/tpc_finish/tpc_abort with a foreign '
+                'transaction proved without effect; tpc_begin proved to leave LOCKINV (lock held <=> transaction '
+                'recorded) also when metadata is over-long; tpc_abort proved to restore file end, staging, blob '
+                'dirty list and to release the commit lock; tpc_finish releases it on every path.',
+        'note': 'Single fault (a second failure inside a cleanup handler is outside). MappingStorage/DemoStorage/'
+                'BlobStorage wrappers: see C16/C13. Connection-level cleanup: C11.',
+        'design_ref': 'DESIGN.md section 5 C05',
+    },
+    'C03': {
+        'modules': FS_MODULES,
+        'lemmas': [],
+        'level': 'proof',
+        'bounded': [
+            {'func': 'ZODB:<storages>.store<conflict-scenarios>',
+             'bound': 'file/mapping/demo storage x {stale writer, current writer, stale after removal, '
+                      'readCurrent on changed object}'},
+        ],
+        'text': 'FileStorage.store proved: normal exit only if the object is new, or the caller\'s serial equals '
+                'the tid of the current committed record, or the stored data is the resolver\'s result for '
+                '(oid, committed serial, old serial, data) and the oid is reported; ConflictError leaves staging '
+                'untouched; deleteObject likewise; the commit lock is held from tpc_begin to finish/abort.',
+        'note': 'MappingStorage/DemoStorage store and Connection readCurrent bookkeeping: bounded / C16 / C11 only. '
+                'Schedules beyond lock ownership not explored.',
+        'design_ref': 'DESIGN.md section 5 C03',
     },
 }
+
+NOT_YET = {}
